@@ -84,9 +84,26 @@ def apply_rewrite(schema, rw):
     return positions.edit_at(schema, path, fn)
 
 
-def observe(schema, cfg, docs):
+ENTRIES = ("schema-setter", "setitem", "update", "per-call")
+
+
+def observe(schema, cfg, docs, entry="constructor"):
     try:
-        v = pool.PoolValidator(copy.deepcopy(schema), **copy.deepcopy(cfg))
+        if entry == "constructor":
+            v = pool.PoolValidator(copy.deepcopy(schema), **copy.deepcopy(cfg))
+        else:
+            # the same definition handed over through another documented entry point
+            v = pool.PoolValidator({}, **copy.deepcopy(cfg))
+            s = copy.deepcopy(schema)
+            if entry == "schema-setter":
+                v.schema = s
+            elif entry == "setitem":
+                for k in s:
+                    v.schema[k] = s[k]
+            elif entry == "update":
+                v.schema.update(s)
+            else:
+                v.validate({}, s)
     except cerberus.SchemaError:
         return {"accepted": False}
     except Exception as e:
@@ -181,6 +198,16 @@ def run(ctx):
             dist[rw[0] + "@" + rw[2]] += 1
             distinct.add(json.dumps(common.jval(var), sort_keys=True, default=repr))
             d = compare(cobs, observe(var, cfg, docs), canonical)
+            if not d:
+                entry = rng.choice(ENTRIES)
+                dist["entry_" + entry] += 1
+                d = compare(observe(canonical, cfg, docs, entry), observe(var, cfg, docs, entry), canonical)
+                if d:
+                    d = "(through %s) %s" % (entry, d)
+                    violations.append({"signature": "entry:" + entry, "what": "%s shorthand at %s position: %s" % (rw[0], rw[2], d),
+                                       "replay": {"canonical": common.jval(canonical), "variant": common.jval(var), "config": common.jval(cfg),
+                                                  "documents": [common.jval(x) for x in docs], "entry": entry}})
+                    d = None
             if d and rw[0] == "multi":
                 # shrink the set of rewrites: a violation that survives with a single rewrite is reported (and attributed) as that one
                 def build(sub):
@@ -289,13 +316,14 @@ def run(ctx):
             "rule": "canonical schemas (C01/C02 generators + planted homogeneous *of rules, incl. rules whose name contains '_'); every eligible position "
                     "(field rules, dict-/list-schema, keysrules, valuesrules, items members, *of definitions, allow_unknown rule sets at rule and validator level, "
                     "registry definitions) rewritten into <of>_<rule> / deprecated-name / spaces form; oracle: accepted iff canonical accepted, validator.schema "
-                    "equals the canonical form, same verdict / error keys / normalized document on 2 documents. Non-trivial = distinct variant schemas."}
+                    "equals the canonical form, same verdict / error keys / normalized document on 2 documents; every variant also through one of the other entry points "
+                    "(schema setter, item assignment, update, per-call schema) against the canonical form through the same one. Non-trivial = distinct variant schemas."}
 
 
 def replay(rp):
     docs = [common.unjson(d) for d in rp["documents"]]
     cfg = common.unjson(rp.get("config", {"d": []}))
-    a = observe(common.unjson(rp["canonical"]), cfg, docs)
-    b = observe(common.unjson(rp["variant"]), cfg, docs)
+    a = observe(common.unjson(rp["canonical"]), cfg, docs, rp.get("entry", "constructor"))
+    b = observe(common.unjson(rp["variant"]), cfg, docs, rp.get("entry", "constructor"))
     print(compare(a, b, None))
     return 0
